@@ -4,6 +4,7 @@ import (
 	"encoding/json"
 	"errors"
 	"fmt"
+	"sync"
 
 	"github.com/lidofinance/dc4bc/client/modules/state"
 	"github.com/lidofinance/dc4bc/client/types"
@@ -22,6 +23,10 @@ type OperationRepo interface {
 }
 
 type BaseOperationRepo struct {
+	// mu serialises the read-modify-write sequences on the pool and on the
+	// tombstone list: the poller (PutOperation) and the local API
+	// (DeleteOperation) use the repository concurrently
+	mu                           sync.Mutex
 	state                        state.State
 	operationsCompositeKey       string
 	deleteOperationsCompositeKey string
@@ -49,6 +54,9 @@ func NewOperationRepo(s state.State, topic string) (*BaseOperationRepo, error) {
 }
 
 func (r *BaseOperationRepo) PutOperation(operation *types.Operation) error {
+	r.mu.Lock()
+	defer r.mu.Unlock()
+
 	operations, err := r.GetOperations()
 	if err != nil {
 		return fmt.Errorf("failed to getOperations: %w", err)
@@ -73,6 +81,9 @@ func (r *BaseOperationRepo) PutOperation(operation *types.Operation) error {
 
 // DeleteOperation deletes operation from an operation pool
 func (r *BaseOperationRepo) DeleteOperation(operation *types.Operation) error {
+	r.mu.Lock()
+	defer r.mu.Unlock()
+
 	deletedOperations, err := r.getDeletedOperations()
 	if err != nil {
 		return fmt.Errorf("failed to getDeletedOperations: %w", err)
